@@ -1027,3 +1027,202 @@ class DiffMergeOpts:
                 return None
             n += 1
         return "merge-defaults-opt-delete-create" if n else None
+
+
+# ------------------------------------------------------------------------------------------------
+# reversal of a moved / created user-ordered list instance that is changed inside as well
+# ------------------------------------------------------------------------------------------------
+class UordMoveChange:
+    """C13 on the implementation: apply(reverse(diff(A,B)),B) = A where ONE instance of a user-ordered keyed list (at the
+    top level, in a container, in an entry of another list, deeper) is moved or created and, in the same diff, changed
+    inside: nested leaf replaced / created / deleted, leaf of a nested container, nested leaf-list instances, entries of a
+    nested list, a default leaf set explicitly or back; both diff option settings; controls (move only, change only, change
+    in another instance).  Only a diff that deletes a user-ordered instance or moves two instances of one list is
+    attributed to the known finding uord-reverse."""
+    driver = "lyx"
+    kinds = None
+    quick_sanitize = False
+    name = "difftree-uord-movechange-C13"
+    WORDS = ["a", "b", "c", "d", "e", "f", "g"]
+
+    def __init__(self):
+        self.info = {}
+
+    def module(self, rng):
+        self.wrap = rng.choice([[], ["c"], ["l"], ["c", "l"], ["l", "c"], ["c", "c", "l"]])
+        body = ('list ul { key "k"; ordered-by user; leaf k { type string; } leaf v { type string; } '
+                'leaf d { type uint8; default "7"; } container c { leaf cv { type string; } leaf cd { type string; default "x"; } } '
+                'leaf-list nl { type string; } list sub { key "sk"; leaf sk { type string; } leaf sv { type string; } } '
+                'container p { presence "p"; leaf pv { type string; } } }')
+        for i, w in reversed(list(enumerate(self.wrap))):
+            if w == "c":
+                body = "container w%d { %s leaf o%d { type string; } }" % (i, body, i)
+            else:
+                body = 'list w%d { key "id"; leaf id { type string; } %s leaf o%d { type string; } }' % (i, body, i)
+        return 'module m1 { yang-version 1.1; namespace "urn:verif:m1"; prefix m1; %s }' % body
+
+    def inst(self, rng, k):
+        e = {"k": k}
+        if rng.random() < 0.7:
+            e["v"] = rng.choice(self.WORDS)
+        if rng.random() < 0.4:
+            e["d"] = rng.choice(["7", "9", "200"])
+        if rng.random() < 0.5:
+            e["cv"] = rng.choice(self.WORDS)
+        if rng.random() < 0.2:
+            e["cd"] = rng.choice(["x", "y"])
+        e["nl"] = sorted(rng.sample(self.WORDS, rng.randrange(0, 4)))
+        e["sub"] = {s: rng.choice(self.WORDS) for s in sorted(rng.sample(self.WORDS, rng.randrange(0, 3)))}
+        if rng.random() < 0.3:
+            e["pv"] = rng.choice(self.WORDS + [None])
+        return e
+
+    def change(self, rng, e):
+        """one to three changes inside an instance"""
+        e = {k: (dict(v) if isinstance(v, dict) else list(v) if isinstance(v, list) else v) for k, v in e.items()}
+        for _ in range(rng.randrange(1, 4)):
+            r = rng.randrange(9)
+            if r == 0:
+                e["v"] = rng.choice([w for w in self.WORDS if w != e.get("v")])
+            elif r == 1:
+                if "v" in e:
+                    del e["v"]
+                else:
+                    e["v"] = rng.choice(self.WORDS)
+            elif r == 2:
+                if "d" in e:
+                    del e["d"]
+                else:
+                    e["d"] = rng.choice(["7", "9"])
+            elif r == 3:
+                e["d"] = rng.choice([x for x in ("7", "9", "200") if x != e.get("d")])
+            elif r == 4:
+                if "cv" in e and rng.random() < 0.4:
+                    del e["cv"]
+                else:
+                    e["cv"] = rng.choice([w for w in self.WORDS if w != e.get("cv")])
+            elif r == 5:
+                w = rng.choice(self.WORDS)
+                e["nl"] = sorted(set(e["nl"]) ^ {w})
+            elif r == 6:
+                w = rng.choice(self.WORDS)
+                if w in e["sub"] and rng.random() < 0.5:
+                    del e["sub"][w]
+                else:
+                    e["sub"][w] = rng.choice([x for x in self.WORDS if x != e["sub"].get(w)])
+            elif r == 7:
+                if "pv" in e:
+                    del e["pv"]
+                else:
+                    e["pv"] = rng.choice(self.WORDS + [None])
+            else:
+                if "cd" in e:
+                    del e["cd"]
+                else:
+                    e["cd"] = rng.choice(["x", "y"])
+        return e
+
+    def xml_inst(self, e):
+        s = "<ul><k>%s</k>" % e["k"]
+        if "v" in e:
+            s += "<v>%s</v>" % e["v"]
+        if "d" in e:
+            s += "<d>%s</d>" % e["d"]
+        if "cv" in e or "cd" in e:
+            s += "<c>%s%s</c>" % ("<cv>%s</cv>" % e["cv"] if "cv" in e else "", "<cd>%s</cd>" % e["cd"] if "cd" in e else "")
+        s += "".join("<nl>%s</nl>" % w for w in e["nl"])
+        s += "".join("<sub><sk>%s</sk><sv>%s</sv></sub>" % kv for kv in sorted(e["sub"].items()))
+        if "pv" in e:
+            s += "<p>%s</p>" % ("<pv>%s</pv>" % e["pv"] if e["pv"] else "")
+        return s + "</ul>"
+
+    def xml(self, insts, others):
+        s = "".join(self.xml_inst(e) for e in insts)
+        for i, w in reversed(list(enumerate(self.wrap))):
+            o = "<o%d>%s</o%d>" % (i, others[i], i) if others.get(i) else ""
+            s = "<w%d>%s%s%s</w%d>" % (i, "<id>1</id>" if w == "l" else "", s, o, i)
+        if not self.wrap:
+            return s.replace("<ul>", '<ul xmlns="urn:verif:m1">')
+        return s.replace("<w0>", '<w0 xmlns="urn:verif:m1">', 1)
+
+    def gen(self, rng, tier, scale=1.0):
+        rng = private_rng(rng, self.name)
+        L = []
+        for i in range(max(1, int((4000 if tier == "thorough" else 400) * scale))):
+            yang = self.module(rng)
+            keys = rng.sample(["k1", "k2", "k3", "k4", "k5", "k6"], rng.randrange(2, 6))
+            a = [self.inst(rng, k) for k in keys]
+            b = [dict(e) for e in a]
+            kind = rng.choice(["move+change", "move+change", "move+change", "create+change", "move", "change", "move,change-other"])
+            j = rng.randrange(len(b))
+            if kind.startswith("move"):
+                e = b.pop(j)
+                # (towards the front: one move operation; towards the end the diff moves every instance that is passed)
+                front = [p for p in range(len(b) + 1) if p < j]
+                pos = rng.choice(front) if front and rng.random() < 0.75 else rng.choice([p for p in range(len(b) + 1) if p != j])
+                b.insert(pos, e)
+                if kind == "move+change":
+                    b[pos] = self.change(rng, e)
+                elif kind == "move,change-other":
+                    o = rng.choice([p for p in range(len(b)) if p != pos])
+                    b[o] = self.change(rng, b[o])
+            elif kind == "create+change":
+                nk = rng.choice([k for k in ("k1", "k2", "k3", "k4", "k5", "k6", "k7") if k not in keys])
+                b.insert(rng.randrange(len(b) + 1), self.inst(rng, nk))
+                o = rng.randrange(len(b))
+                b[o] = self.change(rng, b[o]) if rng.random() < 0.5 else b[o]
+            else:
+                b[j] = self.change(rng, b[j])
+            oa = {i: rng.choice(self.WORDS) for i in range(len(self.wrap)) if rng.random() < 0.3}
+            ob = dict(oa) if rng.random() < 0.6 else {i: rng.choice(self.WORDS) for i in range(len(self.wrap)) if rng.random() < 0.3}
+            if rng.random() < 0.1:
+                a, b, oa, ob = b, a, ob, oa
+            s = Script()
+            s.ctx()
+            s.mod(yang)
+            s.parse(0, "x", self.xml(a, oa))
+            s.parse(1, "x", self.xml(b, ob))
+            ix = {}
+            for opts in (DIFF_DEFAULTS, 0):
+                ix["d", opts] = s.add("diff", "t0", "t1", opts, "t2")
+                ix["dd", opts] = s.dump(2)
+                ix["rev", opts] = s.add("rev", "t2", "t7")
+                s.add("dup", "t1", "t8", DUPF)
+                ix["ap", opts] = s.add("apply", "t8", "t7")
+                if not opts:
+                    ix["val", opts] = s.add("val", "t8", "c0", 0x2)
+                ix["res", opts] = s.dump(8)
+            ix["A"] = s.dump(0)
+            ix["B"] = s.dump(1)
+            line = s.line()
+            self.info[line] = (ix, kind)
+            L.append(line)
+        return L
+
+    def judge(self, line, out):
+        from props import oracles
+        inf = self.info.get(line)
+        if inf is None:
+            return None
+        ix, kind = inf
+        if out.startswith("CRASH(") or out == "TIMEOUT":
+            return (None, "crash: " + out)
+        r = results(out)
+        if len(r) <= ix["B"] or r[1] != "0" or rc(r[2]) != 0 or rc(r[3]) != 0:
+            return (None, "the generated module or trees were rejected: " + " | ".join(r[1:4])[:200])
+        a = r[ix["A"]]
+        for opts in (DIFF_DEFAULTS, 0):
+            what = "%s, diff options %d" % (kind, opts)
+            if r[ix["d", opts]] != "0":
+                return (None, "lyd_diff_siblings failed (%s): %s" % (what, r[ix["d", opts]]))
+            deleted, moves = oracles.Diff.uord_ops(r[ix["dd", opts]], {"ul"})
+            tag = "uord-reverse" if (deleted or moves >= 2) else None
+            if r[ix["rev", opts]] != "0":
+                return (tag, "lyd_diff_reverse_all failed (%s): %s" % (what, r[ix["rev", opts]]))
+            if not r[ix["ap", opts]].startswith("0"):
+                return (tag, "applying the reversed diff on B failed (%s): %s" % (what, r[ix["ap", opts]]))
+            if not opts and rc(r[ix["val", opts]]) != 0:
+                return (tag, "the tree after the reversed diff is not valid (%s): %s" % (what, r[ix["val", opts]]))
+            if r[ix["res", opts]] != a:
+                return (tag, "apply(reverse(diff(A,B)),B) differs from A (%s):\n%s" % (what, kn_delta(r[ix["res", opts]], a)))
+        return None
